@@ -201,6 +201,13 @@ def run(F, rep):
         from engines import enclosing_conditions as _ec17
         rep.check(bool(asg_) and any(not _ec17(g_, a) for a in asg_), 'C17.M1', nm_, g_.where(), '%s assigns %s only when %s' % (nm_, fld_, [render(c_)[:40] for a in asg_ for c_, b_, s_ in _ec17(g_, a)]), 'unconditional assignment')
 
+    # GeneratorProfile::setProfile(p) means "the built-in strings of p", also for a profile object whose strings were customised since: the load is unconditional
+    gsp = F.fn1('libcellml::GeneratorProfile::setProfile')
+    lp_ = [c for c in gsp.walk() if c.get('k') == 'Call' and c.get('fn') == 'loadProfile']
+    rep.check(bool(lp_) and any(not _ec17(gsp, c) for c in lp_) and all(gsp.cfg().node_dominates(lp_[0], r_) for r_ in gsp.walk() if r_.get('k') == 'Return'), 'C17.M1', 'GeneratorProfile::setProfile|loads unconditionally', gsp.where(),
+              'GeneratorProfile::setProfile loads the built-in strings only when %s: setProfile(C) on a customised C profile keeps the customised (possibly empty) method strings, and the interface then declares what the implementation does not define' % (
+                  [render(c_)[:40] for c in lp_ for c_, b_, s_ in _ec17(gsp, c)] or 'a return precedes it'), 'loadProfile unconditional')
+
     # ------------------------------------------------------------------ B: no method with an empty body
     rep.rule('C17.B1', 'every method the generator emits gets its body through generateMethodBodyCode(), which substitutes the profile\'s empty-method statement (`pass` in Python) when nothing was generated: '
                        'each replace(<...MethodString>, "[CODE]", body) has body = generateMethodBodyCode(...), and generateMethodBodyCode returns emptyMethodString for an empty body')
